@@ -572,6 +572,9 @@ fn run_shard(
                 rng_seed: RngSeed::Fixed(derive_seed(seed, env.prop.id, env.sub.name, shard)),
                 failure_persistence: None,
                 max_shrink_iters: 20_000,
+                // shrinking is bounded in wall-clock time as well: it only
+                // affects how small the replay file gets, never the verdict
+                max_shrink_time: 90_000,
                 max_global_rejects: u32::MAX,
                 verbose: 0,
                 ..Config::default()
@@ -675,6 +678,7 @@ fn post_shrink(sub: &SubCheck, tier: Tier, known: &Arc<Vec<String>>, ff: &mut Fo
         }
     };
     let mut budget = 3000usize;
+    let deadline = std::time::Instant::now() + std::time::Duration::from_secs(90);
     // strip trailing zeros (they are implied for `Src`; generators that hand the
     // tail to `arbitrary::Unstructured` read lengths from the end, so verify)
     {
@@ -691,10 +695,17 @@ fn post_shrink(sub: &SubCheck, tier: Tier, known: &Arc<Vec<String>>, ff: &mut Fo
     }
     let mut improved = true;
     while improved && budget > 0 {
+        if std::time::Instant::now() > deadline {
+            break;
+        }
         improved = false;
         // truncate
         let mut cut = ff.bytes.len() / 2;
         while cut >= 1 && budget > 0 {
+            if std::time::Instant::now() > deadline {
+                budget = 0;
+                break;
+            }
             if ff.bytes.len() > cut {
                 let cand = ff.bytes[..ff.bytes.len() - cut].to_vec();
                 budget -= 1;
@@ -711,6 +722,10 @@ fn post_shrink(sub: &SubCheck, tier: Tier, known: &Arc<Vec<String>>, ff: &mut Fo
         for blk in [16usize, 4, 1] {
             let mut i = 0;
             while i < ff.bytes.len() && budget > 0 {
+                if std::time::Instant::now() > deadline {
+                    budget = 0;
+                    break;
+                }
                 let end = (i + blk).min(ff.bytes.len());
                 if ff.bytes[i..end].iter().any(|b| *b != 0) {
                     let mut cand = ff.bytes.clone();
